@@ -38,7 +38,11 @@ func HarnessC13Options() {
 	}
 	ref := mk()
 	opts := mk()
-	opts.LogFlags = LogFlag(vx.NondetInt("flags", 0, 31))
+	if vx.Param("allflags", 1) == 1 {
+		opts.LogFlags = LogFlag(vx.NondetInt("flags", 0, 31))
+	} else {
+		opts.LogFlags = []LogFlag{0, LogExtraction, LogVisibility, LogPagination, LogTiming, LogEverything}[vx.Choose("flagset", 6)]
+	}
 	opts.SkipPagination = vx.NondetBool("skip")
 	if vx.NondetBool("algo") {
 		opts.PaginationAlgo = PageNumber
